@@ -11,7 +11,8 @@ Proof.
   destruct (c_lm c); try reflexivity.
   unfold cmd_mpirun.
   destruct (c_dpl_named c && (1 <? t_cpr t)); [reflexivity|].
-  destruct (negb (forallb has_cores (t_slots t))); reflexivity.
+  destruct (negb (forallb has_cores (t_slots t))); [reflexivity|].
+  destruct ((MIN_NNODES_IN_LIST <? zlen (hosts_of t)) && t_wfail t); reflexivity.
 Qed.
 
 Lemma final_state_id : forall c ts st, final_state c st ts = st.
@@ -212,11 +213,12 @@ Definition exact_placement (hosts : list Z) : placement :=
 Lemma mpirun_den : forall c st t,
   c_lm c = MPIRUN -> forallb has_cores (t_slots t) = true ->
   c_dpl_named c && (1 <? t_cpr t) = false ->
+  (MIN_NNODES_IN_LIST <? zlen (hosts_of t)) && t_wfail t = false ->
   exists cmd, snd (get_launch_cmds c st t) = inr cmd /\
               den c cmd = Some (exact_placement (hosts_of t)).
 Proof.
-  intros c st t Hlm Hcores Hd. unfold get_launch_cmds, den. rewrite Hlm.
-  unfold cmd_mpirun. rewrite Hd, Hcores. cbn [negb snd].
+  intros c st t Hlm Hcores Hd Hw. unfold get_launch_cmds, den. rewrite Hlm.
+  unfold cmd_mpirun. rewrite Hd, Hcores, Hw. cbn [negb snd].
   destruct (MIN_NNODES_IN_LIST <? zlen (hosts_of t)) eqn:Ebig;
   destruct (c_mpt c) eqn:Empt; destruct (c_ccmrun c); destruct (c_dplace c);
   destruct (c_dpl_named c); destruct (c_omplace c);
@@ -300,9 +302,12 @@ Proof.
   destruct (c_dpl_named c && (1 <? t_cpr t)) eqn:Hd.
   - apply err_ok with (e := EValue). unfold mobs, get_launch_cmds. rewrite Hlm. unfold cmd_mpirun.
     rewrite Hd. reflexivity.
-  - destruct (mpirun_den c st t Hlm Hc Hd) as [cmd [Hcmd Hden]].
-    apply perm_ok with (cmd := cmd) (l := hosts_of t) (pins := None); auto.
-    congruence.
+  - destruct ((MIN_NNODES_IN_LIST <? zlen (hosts_of t)) && t_wfail t) eqn:Hw.
+    + apply err_ok with (e := EOs). unfold mobs, get_launch_cmds. rewrite Hlm. unfold cmd_mpirun.
+      rewrite Hd, Hc, Hw. reflexivity.
+    + destruct (mpirun_den c st t Hlm Hc Hd Hw) as [cmd [Hcmd Hden]].
+      apply perm_ok with (cmd := cmd) (l := hosts_of t) (pins := None); auto.
+      congruence.
 Qed.
 
 Lemma mpirun_refuses : forall c st t, c_lm c = MPIRUN ->
@@ -310,9 +315,12 @@ Lemma mpirun_refuses : forall c st t, c_lm c = MPIRUN ->
 Proof.
   intros c st t Hlm. unfold ok_refuses, ok_nocrash, capable, mobs, can_launch, get_launch_cmds.
   rewrite Hlm. unfold cmd_mpirun. cbn [fst snd].
-  destruct (c_dpl_named c && (1 <? t_cpr t)); cbn [negb snd]; split; auto.
-  - rewrite orb_true_r. reflexivity.
-  - intro Hc. rewrite Hc. reflexivity.
+  split.
+  - destruct (c_dpl_named c && (1 <? t_cpr t)); cbn [negb snd]; [|reflexivity].
+    rewrite orb_true_r. reflexivity.
+  - intro Hc. rewrite Hc. cbn [negb].
+    destruct (c_dpl_named c && (1 <? t_cpr t)); [reflexivity|].
+    destruct ((MIN_NNODES_IN_LIST <? zlen (hosts_of t)) && t_wfail t); reflexivity.
 Qed.
 
 (* ---- MPIEXEC / MPIEXEC_MPT: rank file, host file (h:n), host file (h slots=n) ---- *)
@@ -331,11 +339,12 @@ Lemma index_from_len {A} (l : list A) : forall i, zlen (index_from i l) = zlen l
 Proof. induction l as [|s l IH]; intro i; simpl; [reflexivity|]. rewrite !zlen_cons, IH. reflexivity. Qed.
 
 Lemma mpiexec_rf_den : forall c st t, c_lm c = MPIEXEC -> c_rf c = true -> t_slots t <> [] ->
+  t_wfail t = false ->
   exists cmd, snd (get_launch_cmds c st t) = inr cmd /\
     den c cmd = Some {| p_count := zlen (hosts_of t); p_nodes := NList (hosts_of t);
                         p_pins := Some (map s_cores (t_slots t)) |}.
 Proof.
-  intros c st t Hlm Hrf Hs. unfold get_launch_cmds, den. rewrite Hlm. unfold cmd_mpiexec. rewrite Hrf.
+  intros c st t Hlm Hrf Hs Hw. unfold get_launch_cmds, den. rewrite Hlm. unfold cmd_mpiexec. rewrite Hrf, Hw.
   destruct (t_slots t) as [|s0 rest] eqn:Es; [congruence|]. rewrite <- Es. clear Hs.
   cbn [negb andb opt app snd].
   destruct (c_omplace c); (eexists; split; [reflexivity|]); unfold EXEC;
@@ -345,11 +354,11 @@ Proof.
 Qed.
 
 Lemma mpiexec_hf_den : forall c st t, c_lm c = MPIEXEC -> c_rf c = false ->
-  c_flavor c <> PALS -> t_slots t <> [] ->
+  c_flavor c <> PALS -> t_slots t <> [] -> t_wfail t = false ->
   exists cmd, snd (get_launch_cmds c st t) = inr cmd /\
     den c cmd = Some (exact_placement (expand (host_counts (hosts_of t)))).
 Proof.
-  intros c st t Hlm Hrf Hfl Hs. unfold get_launch_cmds, den. rewrite Hlm. unfold cmd_mpiexec. rewrite Hrf.
+  intros c st t Hlm Hrf Hfl Hs Hw. unfold get_launch_cmds, den. rewrite Hlm. unfold cmd_mpiexec. rewrite Hrf, Hw.
   destruct (t_slots t) as [|s0 rest] eqn:Es; [congruence|]. rewrite <- Es. clear Hs.
   rewrite <- (zlen_expand _ (host_counts_nonneg (hosts_of t))).
   destruct (c_flavor c); try congruence;
@@ -364,11 +373,14 @@ Lemma mpiexec_enacts : forall c st t, c_lm c = MPIEXEC -> valid t ->
   ok_pins c t (mobs c st t) = true.
 Proof.
   intros c st t Hlm [Hs [Hr Hc]] Hv.
+  destruct (t_wfail t) eqn:Hw.
+  { apply err_ok with (e := EOs). unfold mobs, get_launch_cmds. rewrite Hlm. unfold cmd_mpiexec. rewrite Hw.
+    destruct (t_slots t); [congruence|reflexivity]. }
   destruct (c_rf c) eqn:Hrf.
-  - destruct (mpiexec_rf_den c st t Hlm Hrf Hs) as [cmd [Hcmd Hden]].
+  - destruct (mpiexec_rf_den c st t Hlm Hrf Hs Hw) as [cmd [Hcmd Hden]].
     eapply perm_ok with (cmd := cmd) (l := hosts_of t); eauto; congruence.
   - destruct Hv as [Hv|Hv]; [discriminate|].
-    destruct (mpiexec_hf_den c st t Hlm Hrf Hv Hs) as [cmd [Hcmd Hden]].
+    destruct (mpiexec_hf_den c st t Hlm Hrf Hv Hs Hw) as [cmd [Hcmd Hden]].
     eapply perm_ok with (cmd := cmd) (l := expand (host_counts (hosts_of t))) (pins := None); eauto;
       try congruence. apply host_counts_perm.
 Qed.
@@ -510,10 +522,11 @@ Proof.
 Qed.
 
 Lemma srun_den : forall c st t, c_lm c = SRUN -> t_slots t <> [] ->
+  (MIN_VSLURM_IN_LIST <? c_vmajor c) && (MIN_NNODES_IN_LIST <? zlen (nodeset (hosts_of t))) && t_wfail t = false ->
   exists cmd, snd (get_launch_cmds c st t) = inr cmd /\
     den c cmd = Some {| p_count := zlen (t_slots t); p_nodes := NSet (nodeset (hosts_of t)); p_pins := None |}.
 Proof.
-  intros c st t Hlm Hs.
+  intros c st t Hlm Hs Hw.
   assert (Hle : (zlen (nodeset (hosts_of t)) <=? zlen (t_slots t)) = true).
   { apply Z.leb_le. rewrite <- zlen_hosts. apply nodeset_len. }
   assert (Hne : nodeset (hosts_of t) <> []).
@@ -521,7 +534,8 @@ Proof.
   unfold get_launch_cmds, den. rewrite Hlm. unfold cmd_srun.
   destruct (t_slots t) as [|s0 rest] eqn:Es; [congruence|]. clear Hs.
   destruct (nodeset (hosts_of t)) as [|n0 nl] eqn:En; [congruence|].
-  destruct ((MIN_VSLURM_IN_LIST <? c_vmajor c) && (MIN_NNODES_IN_LIST <? zlen (n0 :: nl)));
+  destruct ((MIN_VSLURM_IN_LIST <? c_vmajor c) && (MIN_NNODES_IN_LIST <? zlen (n0 :: nl))) eqn:Ecnd;
+  cbn [andb] in Hw; try rewrite Hw;
   destruct (1 <? zlen (s0 :: rest)); destruct (t_mpi t); destruct (c_exact c); destruct (c_traverse c);
   destruct (negb (t_cpr t =? 0)); destruct (1 <? c_tpc c);
   match goal with |- context [if ?b then (if c_traverse c then _ else _) else []] => destruct b
@@ -537,7 +551,11 @@ Lemma srun_enacts : forall c st t, c_lm c = SRUN -> valid t ->
   ok_pins c t (mobs c st t) = true.
 Proof.
   intros c st t Hlm [Hs [Hr Hc]].
-  destruct (srun_den c st t Hlm Hs) as [cmd [Hcmd Hden]].
+  destruct ((MIN_VSLURM_IN_LIST <? c_vmajor c) && (MIN_NNODES_IN_LIST <? zlen (nodeset (hosts_of t)))
+            && t_wfail t) eqn:Hw.
+  { apply err_ok with (e := EOs). unfold mobs, get_launch_cmds. rewrite Hlm. unfold cmd_srun.
+    destruct (t_slots t) as [|s0 rest]; [congruence|]. cbn [snd]. rewrite Hw. reflexivity. }
+  destruct (srun_den c st t Hlm Hs Hw) as [cmd [Hcmd Hden]].
   eapply set_ok with (cmd := cmd); eauto; try congruence.
   intro x. apply nodeset_in.
 Qed.
@@ -546,7 +564,7 @@ Qed.
 Definition cfg0 (l : lm) (f : flavor) : cfg :=
   Build_cfg l false false false false false f false false false false 20 false false 1 false 64 4 7 0 [] false true.
 Definition task0 (sl : list slot) (rs : list rset) (n : Z) : task :=
-  Build_task sl rs n 1 0 true true 0 false false false.
+  Build_task sl rs n 1 0 true true 0 false false false false.
 Definition sl (n c : Z) : slot := Build_slot n n [c] [].
 
 Lemma valid_intro t : t_slots t <> [] -> t_ranks t = zlen (t_slots t) ->
@@ -651,4 +669,53 @@ Lemma find_launcher_sound : forall cs t j c, find_launcher cs t = inr (Some (j, 
 Proof.
   intros cs t j c H. unfold find_launcher in H. apply find_from_sound in H as [Hc [_ Hn]].
   rewrite Nat.sub_0_r in Hn. auto.
+Qed.
+
+(* =============================================================== *)
+(* error path: the host / rank / node / ERF file cannot be written  *)
+(* =============================================================== *)
+Ltac top H := repeat (match type of H with
+   | snd (if ?b then _ else _) = _ => destruct b eqn:?
+   | snd (_, _) = _ => cbn [snd] in H
+   | (if ?b then _ else _) = _ => destruct b eqn:?
+   | (match ?x with _ => _ end) = _ => destruct x eqn:?
+   | inl _ = inr _ => discriminate H
+   end).
+
+(* a method that has to write a file refuses the task when the write fails *)
+Lemma wfail_refuses : forall c st t, t_wfail t = true -> writes_file c t = true ->
+  exists e, snd (get_launch_cmds c st t) = inl e.
+Proof.
+  intros c st t Hw Hf. unfold writes_file in Hf. unfold get_launch_cmds.
+  destruct (c_lm c); try discriminate; cbn [snd].
+  - unfold cmd_mpirun. rewrite Hw, Hf. cbn [andb].
+    destruct (c_dpl_named c && (1 <? t_cpr t)); [eexists; reflexivity|].
+    destruct (negb (forallb has_cores (t_slots t))); eexists; reflexivity.
+  - unfold cmd_mpiexec. rewrite Hw. destruct (t_slots t); eexists; reflexivity.
+  - unfold cmd_srun. destruct (t_slots t) as [|s0 rest]; [discriminate|]. rewrite Hf, Hw.
+    eexists; reflexivity.
+  - unfold cmd_jsrun. rewrite Hf, Hw. destruct (t_rs t); [eexists; reflexivity|].
+    destruct (negb (forallb gpus_ok (r :: l))); eexists; reflexivity.
+Qed.
+
+(* whatever IS emitted while the sandbox cannot be written names no file, i.e.
+   no command is produced on a path whose file write failed *)
+Lemma wfail_no_file : forall c st t cmd, t_wfail t = true ->
+  snd (get_launch_cmds c st t) = inr cmd -> file cmd = None.
+Proof.
+  intros c st t cmd Hw H. unfold get_launch_cmds in H.
+  destruct (c_lm c); cbn [snd] in H.
+  - unfold cmd_fork in H. injection H as <-. reflexivity.
+  - unfold cmd_ssh in H. top H; injection H as <-; reflexivity.
+  - unfold cmd_ssh in H. top H; injection H as <-; reflexivity.
+  - unfold cmd_mpirun in H. rewrite Hw, andb_true_r in H. top H. injection H as <-. reflexivity.
+  - unfold cmd_mpiexec in H. rewrite Hw in H. top H.
+  - unfold cmd_srun in H. rewrite Hw in H. destruct (t_slots t) as [|s0 rest].
+    + cbn [andb] in H. injection H as <-. reflexivity.
+    + rewrite andb_true_r in H. top H. injection H as <-. reflexivity.
+  - unfold cmd_aprun in H. injection H as <-. reflexivity.
+  - unfold cmd_ccmrun in H. injection H as <-. reflexivity.
+  - unfold cmd_ibrun in H. top H; injection H as <-; reflexivity.
+  - unfold cmd_jsrun in H. rewrite Hw in H. top H; injection H as <-; reflexivity.
+  - unfold cmd_prte in H. top H; injection H as <-; reflexivity.
 Qed.
